@@ -810,7 +810,17 @@ def _kind_pred(test):
     return f
 
 
+def _concat_all(I, segs):
+    if isinstance(segs, (VList, VTuple)) and all(isinstance(x, VSeq) for x in segs.items):
+        if not segs.items:
+            return VSeq(z3.Empty(SeqS), 'list')
+        ts = [x.t for x in segs.items]
+        return VSeq(ts[0] if len(ts) == 1 else z3.Concat(*ts), 'list')
+    raise OutOfSubset('concat_all of %r' % (segs,))
+
+
 PRIMS = {
+    'concat_all': _concat_all,
     'py_is_int': _kind_pred(lambda x: isinstance(x, (VInt, VBool))),
     'py_is_bool': _kind_pred(lambda x: isinstance(x, VBool)),
     'py_is_str': _kind_pred(lambda x: isinstance(x, VStr)),
